@@ -20,7 +20,7 @@ from . import common
 
 ID = 'C18'
 LEVEL = 'exploration'
-RUNS = {'quick': 3000, 'thorough': 80000}
+RUNS = {'quick': 12000, 'thorough': 300000}
 SIM_TIME_UNIT = 'samples / dense time units'
 RULE = ('seeded generation of (law, operand formulas p and q, bounds, monitor kind that supports both sides, data, schedule); every '
         'update is a checked history for the online kinds; non-trivial = the common output is finite somewhere and not constant; '
@@ -81,7 +81,7 @@ def gen(rng, tier):
         ops = common.DENSE_PAST_OPS if dense else common.PAST_OPS
     else:
         ops = common.DENSE_OFFLINE_OPS if dense else set(sg.ALL_OPS)
-    cfg = sg.GenCfg(vars=vars_, ops=ops, max_depth=rng.randint(1, 3), max_bound=rng.choice([2, 4]), p_loose=0.03)
+    cfg = sg.GenCfg(vars=vars_, ops=ops, max_depth=rng.randint(1, 3), max_bound=rng.choice([2, 4]), p_loose=(rng.choice([0.3, 0.6, 0.9]) if dense else rng.choice([0.03, 0.3, 0.6])))
     for _ in range(50):
         p = sg.gen_formula(rng, cfg)
         q = sg.gen_formula(rng, cfg)
@@ -97,11 +97,14 @@ def gen(rng, tier):
     pastify = online and any(x[0] in sg.FUTURE_OPS for x in sg.walk(lhs))
     sc = {'kind': kind, 'law': law, 'unbounded': unbounded, 'vars': vars_, 'p': p, 'q': q, 'b1': b1, 'b2': b2, 'pastify': pastify}
     if dense:
-        sc['signals'] = dict((v, world.gen_dense_signal(rng, rng.randint(1, 7), start_q=0, max_gap_q=4)[0]) for v in vars_)
+        rp = rng.choice([0.15, 0.4])       # plateaus of equal consecutive samples
+        sc['signals'] = dict((v, world.gen_dense_signal(rng, rng.randint(1, 7), start_q=0, max_gap_q=4, resample_p=rp,
+                                                       style=rng.choice([None, 'ints']))[0]) for v in vars_)
         sc['nbatches'] = rng.randint(1, 4)
     else:
         sc['n'] = rng.randint(1, 10) + (int(sg.horizon(lhs)) if pastify else 0)
         sc['data'] = world.gen_trace(rng, vars_, sc['n'])
+        common.add_clock(rng, sc)
     return sc
 
 
@@ -116,13 +119,13 @@ def feed(sc, ast, r):
     mon = M.build(desc)
     r.api_calls += 2
     if sc['kind'] == 'dt_off':
-        return [p[1] for p in M.dt_evaluate(mon, list(range(sc['n'])), sc['data'])], text
+        return [p[1] for p in M.dt_evaluate(mon, common.stamps_of(sc), sc['data'])], text
     if sc['kind'] == 'ct_off':
         return M.ct_evaluate(mon, sc['signals'], sc['vars']), text
     if sc['kind'] == 'dt_on':
         out = []
         for i in range(sc['n']):
-            out.append(M.dt_update(mon, i, [(v, sc['data'][v][i]) for v in sc['vars']]))
+            out.append(M.dt_update(mon, common.stamps_of(sc)[i], [(v, sc['data'][v][i]) for v in sc['vars']]))
             d = M.state_digest(mon)
             if d:
                 r.states.add(d)
@@ -139,6 +142,9 @@ def feed(sc, ast, r):
 
 def run(sc):
     r = Result()
+    r.faults.update(sc.get('fired') or {})
+    if sc.get('nbatches', 1) > 1:
+        r.faults['batch_split'] += sc['nbatches'] - 1
     dense = sc['kind'].startswith('ct')
     lhs, rhs = sides(sc['law'], sc['p'], sc['q'], sc['b1'], sc['b2'], sc['unbounded'])
     data = sc['signals'] if dense else sc['data']
